@@ -334,6 +334,9 @@ def decide(pid, pc, tier, seed, work, t0, finder_driver):
         for f in futs:
             results.append(f.result())
         canary_ok, canary_info = fc.result()
+    for r in results:
+        for fa in (r.get('report') or {}).get('fuzzy_anchors', []):
+            print('NOTE: unit %s: the statement a proof hint of %s is anchored on was edited; the hint is placed at the one line that starts like it: `%s` (was `%s`)' % (r['unit'], fa['function'], fa['matched'], fa['anchor']))
     # retry undecided-by-resource units once with 4x rlimit
     for i, r in enumerate(results):
         if r['undecided'] and any(any(p in u for p in UNDECIDED_PATTERNS) for u in r['undecided']) and r.get('status') == 'ok':
@@ -588,6 +591,7 @@ def evidence(pid, pc, tier, seed, t0, mine, discharged, functions, results, smt_
             failed_obligations=[dict(label=f['label'], fn=f['fn'], message=f['message'], repo=f['repo_loc']) for f in failures if pid in f['props']],
             known_findings=[dict(label=f['label'], what=k['what']) for f, k in known_hit],
             rewrite_rules_applied=rules,
+            approximate_anchors=[fa for r in results for fa in (r.get('report') or {}).get('fuzzy_anchors', [])],
             bounded=pc.get('bounded', []),
             not_decided=pc.get('not_decided', []),
             slow_functions=slow,
